@@ -60,8 +60,8 @@ FAMILIES = {
         ("shadow", fam(Dirs=["a", NM_IC, IC], Leaves=["f", IC], MaxFiles=2, Mech="intended")),
         ("under", fam(Dirs=["a", IC, JB], Leaves=["f", IA], MaxFiles=2, MaxDepth=2, Packs=["dir", "tar"],
                       Wheres=["under"], Mech="intended")),
-        ("blank", fam(Dirs=["a"], Leaves=["f", IA], MaxFiles=1, MaxDepth=2, Packs=["tar", "zip"], Spaces=["exdir"],
-                      Injects=["none", "raise"], Mech="intended")),
+        ("blank", fam(Dirs=["a"], Leaves=["f", IA], MaxFiles=1, MaxDepth=2, Packs=["tar", "zip"],
+                      Spaces=["exdir", "exdirx"], Injects=["none", "raise"], Mech="intended")),
     ]),
 }
 FAMILIES["thorough"] = collections.OrderedDict(FAMILIES["quick"])
@@ -88,7 +88,7 @@ FAMILIES["thorough"].update([
 # the same universe with the SPECIFIED mechanism, every class of inputs included: all invariants hold
 DESIGN = fam(Dirs=["a", "b", IC, NM_IC], Leaves=["f", IA, ARC], MaxFiles=2, MaxDepth=2, Packs=["dir", "tar", "text", "badgz"],
              Wraps=[False, True], Evils=["none", "dotdot"], Overrides=["none", "SosArchiveContext"],
-             Wheres=["plain", "under"], Injects=["none", "raise"], Spaces=["none", "exdir"], Mech="intended")
+             Wheres=["plain", "under"], Injects=["none", "raise"], Spaces=["none", "exdir", "exdirx"], Mech="intended")
 # the transcription of the code on the classes of inputs it is known to mishandle: TLC must refute these
 REFUTE = collections.OrderedDict([
     ("tie", ("F_Deterministic", "ContextDeterministic",
@@ -99,6 +99,8 @@ REFUTE = collections.OrderedDict([
                fam(Dirs=["a"], Leaves=["f"], MaxFiles=1, MaxDepth=2, Wheres=["under"], Admit=["under"]))),
     ("blank", ("F_TempRemoved", "TempDirRemoved",
                fam(Dirs=[], Leaves=["f"], MaxFiles=1, MaxDepth=1, Packs=["tar"], Spaces=["exdir"], Admit=["blank"]))),
+    ("blankx", ("F_StaysInside", "ExtractionStaysInTempDir",
+                fam(Dirs=[], Leaves=["f"], MaxFiles=1, MaxDepth=1, Packs=["zip"], Spaces=["exdirx"], Admit=["blank"]))),
 ])
 
 HASHSEEDS = {"quick": [1, 2, 3], "thorough": [1, 2, 3, 4, 5, 6, 7, 8]}
@@ -287,12 +289,18 @@ def attach_same(traces, idents, runs):
 # binding self-test (R5): recorded traces with ONE observation corrupted must be rejected
 # ---------------------------------------------------------------------------
 
+SELFTESTS = ["tries-swapped", "hit-dropped", "root-one-up", "default-class", "default-root", "override-ignored",
+             "wrong-class", "file-unlisted", "file-invented", "context-not-seeded", "stray-key", "other-instance",
+             "not-hydrated", "foreign-hydrated", "written-outside", "tmp-left", "left-outside", "runs-differ"]
+
+
 def selftests(traces):
     want, out = {}, []
 
     def add(tag, t, i, clause, mutate):
         if "selftest/" + tag in want:
             return
+        assert tag in SELFTESTS, tag
         c = copy.deepcopy(t)
         c["id"] = "selftest/" + tag
         mutate(c["events"][i])
@@ -345,8 +353,7 @@ def selftests(traces):
             if ev == "same" and len(e["results"]) == 1:
                 add("runs-differ", t, i, "ContextDeterministic:",
                     lambda x: x.update(results=x["results"] + [[x["results"][0][0], 0, ["zz"], x["results"][0][3]]]))
-    total = 19
-    return out, want, total - len(want)
+    return out, want, len(SELFTESTS) - len(want)
 
 
 def check_selftests(val, want):
